@@ -287,8 +287,17 @@ class Interp:
             return BoundClosure(self.shim(v.__func__), v.__self__)
         return v
 
+    def call_body(self, cl: Closure, a, k):
+        """run the body of `cl` even if it has a modular contract (calls made from inside the body, recursive ones included,
+        go through the contract): one induction step"""
+        self._skip_contract_once = getattr(cl, "__qualname__", None)
+        return self.call_closure(cl, a, k)
+
     def call_closure(self, cl: Closure, a, k):
         mod = self.contracts.get(getattr(cl, "__qualname__", None)) if self.contracts else None
+        if mod is not None and getattr(self, "_skip_contract_once", None) == getattr(cl, "__qualname__", None):
+            mod = None
+        self._skip_contract_once = None
         if mod is not None:
             return mod(self, list(a), dict(k))  # modular call: the callee's contract, not its body
         node = cl.node
